@@ -68,6 +68,22 @@ CHECKS.update({
         technique="Kani/CBMC equivalence checking of macro expansion vs documented method chain over symbolic inputs (translation validation)"),
 })
 
+CHECKS.update({
+    "C02": dict(
+        level="translation_validation", ref="3 (C02)",
+        text="Translation validation of `X >>> inner <<< rest` against hand-nested closures `.x(|v| v inner) rest` for each of the ten wrapper-capable operators, nesting depth 1-3, inner chains "
+             "(empty, one, two operators, with block capture) and the three closing styles (explicit, implicit at end of branch, implicit at a ~ step boundary followed by outer operators); one CBMC "
+             "query per packed group decides equality of values and callback traces for ALL symbolic inputs. Rejection cases are not decided.",
+        technique="Kani/CBMC equivalence checking of macro expansion vs hand-nested method chain over symbolic inputs (translation validation)"),
+    "C14": dict(
+        level="translation_validation", ref="3 (C14)",
+        text="Partial: the parser cannot be executed symbolically, so what is decided is the consequence the user relies on. Programs whose operands contain operator look-alikes (closure return "
+             "types, turbofish commas, generic >>, qualified paths, look-alikes inside () [] {} / match arms / nested join! / string and char literals, or-patterns, shifts, ranges), adjacent operators "
+             "of overlapping families with and without ~, and commas / handlers directly after operand-less operators are compared with the documented method chain for ALL symbolic inputs; a mis-split "
+             "that still builds is a solver counterexample, one that no longer builds a build-stage violation.",
+        technique="Kani/CBMC equivalence checking of macro expansion vs documented chain on adversarial operand catalogue (translation validation)"),
+})
+
 NOT_APPLICABLE = {
     "C15": "Quantifies over token streams fed to the expander and has no run-time dimension; deciding it needs symbolic execution of JoinInputDefault::parse + generate_join, "
            "and Kani 0.68 ICEs on proc_macro2::Ident::new / does not finish pushing one token into a TokenStream in 900 s (DESIGN.md 1.1, 4). A hand model of the parser would not be the repository's code.",
